@@ -419,6 +419,15 @@ func grpcGunExtra(t *tr) string {
 	emitTimeout := func(prefix string, p *packages.Package, fn *ast.FuncDecl, what string) {
 		res, chain := ggTimeoutShape(p, fn)
 		if !res.ok {
+			// round 6: the selection is not written in the familiar shape (e.g. extracted into a helper method): take the
+			// value handed to context.WithTimeout SEMANTICALLY, as a function of the configured timeout, by symbolic execution
+			if expr, conf, dflt, chain2 := ggTimeoutSym(t, p, fn); expr != "" {
+				b.WriteString(fmt.Sprintf("/-- the constant `defaultTimeout` of the package (ns) -/\ndef %sDefaultTimeoutNs : Int := %s\n\n", prefix, dflt))
+				b.WriteString(fmt.Sprintf("/-- regenerated (symbolic execution, helper methods inlined) from `%s` %s: the value handed to `context.WithTimeout`; `conf` is the configured\ntimeout in ns -/\ndef %sTimeoutNs (conf : Int) : Int := %s\n\n", ggRel(p, fn), what, prefix, expr))
+				b.WriteString(fmt.Sprintf("/-- which configuration value the selection reads -/\ndef %sTimeoutConf : String := %s\n\n", prefix, ggQuote(conf)))
+				b.WriteString(fmt.Sprintf("/-- how the context handed to `InvokeRpc` is made in %s (one variable, in this order) -/\ndef %sContextChain : String := %s\n\n", what, prefix, ggQuote(chain2)))
+				return
+			}
 			t.errs = append(t.errs, fmt.Sprintf("%s: timeout selection of %s not recognised: %s", p.Fset.Position(fn.Pos()), what, res.why))
 			res.dflt, res.op = "0", "≠"
 		}
@@ -622,6 +631,7 @@ func grpcGunExtra(t *tr) string {
 		many["github.com/yandex/pandora/components/providers/scenario/grpc/postprocessor"]))
 	b.WriteString(grpcgunR4Extra(t, many))
 	b.WriteString(grpcgunSymExtra(t, many))
+	b.WriteString(grpcgunR6Extra(t, many))
 
 	// ---- config tags
 	if st := ggStruct(gp, "GunConfig"); st != nil {
